@@ -3963,6 +3963,12 @@ func updateGatewayNamespace(tx WriteTxn, idx uint64, service *structs.GatewaySer
 		if e.Destination == nil {
 			continue
 		}
+		// Destinations are only reachable through terminating gateways
+		// (checkGatewayWildcardsAndUpdate applies the same rule when the
+		// destination is written after the gateway).
+		if service.GatewayKind != structs.ServiceKindTerminatingGateway {
+			continue
+		}
 
 		sn := structs.ServiceName{
 			Name:           e.Name,
